@@ -623,7 +623,7 @@ static void record_table08(Trace& T, Rng& g, int N, int steps)
 		}
 		// extrema
 		bool global = g.coin(0.2);
-		double x1 = arg(false), x2 = arg(false);
+		double x1 = arg(true), x2 = arg(true);	 // limits may lie in the 1% extrapolation zones
 		if(x2 < x1)
 			std::swap(x1, x2);
 		if(global)
